@@ -120,6 +120,9 @@ def _search(prop, spec, corr, tier, seed, mon, workdir):
                 pass   # the histories written so far are still used
             rc = run.get("random_cfg", run["cfg"])
             subprocess.run([MODELRUN, "random", run["prim"], rc, str(seed), "2000", "80"], stdout=hf, stderr=subprocess.DEVNULL)
+            if "scale" in run.get(tier, run.get("quick", {})):
+                tgt = run[tier if tier in run else "quick"]["scale"][2]
+                subprocess.run([MODELRUN, "scale", run["prim"], run.get("scale_cfg", rc), str(seed), "400", "80", str(tgt)], stdout=hf, stderr=subprocess.DEVNULL)
         for cf in (os.path.join(ROOT, "corpus", run["prim"] + ".txt"), os.path.join(ROOT, "corpus", run["name"] + ".txt")):
             if os.path.exists(cf):
                 with open(hist, "a") as hf:
@@ -189,26 +192,36 @@ def followup(prop, spec, corr, tier, seed, all_keys=False):
             if ((m["key"] in keys and not all_keys) or m["key"] in ("crash", "shape", "a") or not m.get("history")
                     or m["history"].split(";")[2] not in ("L", "A")):
                 continue
-            div.setdefault((r["name"], m["flavour"].split("@")[0]), [])
-            if m["history"] not in div[(r["name"], m["flavour"].split("@")[0])] and len(div[(r["name"], m["flavour"].split("@")[0])]) < 60:
-                div[(r["name"], m["flavour"].split("@")[0])].append(m["history"])
+            hist = m["history"]
+            hp = hist.split(";")
+            if hp[2] == "A" and isinstance(m.get("step"), int) and m["step"] >= 0:
+                # full-trace history (random / scale walk): continue from the diverging step
+                hist = ";".join(hp[:3 + m["step"] + 1])
+            lst = div.setdefault((r["name"], m["flavour"].split("@")[0]), [])
+            if hist not in lst and len(lst) < (12 if all_keys else 60):
+                lst.append(hist)
     if not div:
         return None
     workdir = tempfile.mkdtemp(prefix="follow-", dir=BUILD)
     try:
-        return _followup(prop, spec, tier, mon, div, workdir)
+        return _followup(prop, spec, tier, mon, div, workdir, drain=all_keys)
     finally:
         shutil.rmtree(workdir, ignore_errors=True)
 
 
-def _followup(prop, spec, tier, mon, div, workdir):
-    depth = "3" if tier == "thorough" else "2"
+def _followup(prop, spec, tier, mon, div, workdir, drain=False):
+    depth = "3" if tier == "thorough" and not drain else "2"
     for (rname, fl), hists in div.items():
         base = os.path.join(workdir, "base.hist")
         with open(base, "w") as f:
             f.write("\n".join(hists) + "\n")
+        lines = []
+        if drain:
+            # every future consumes its wake-up (polls in both orders), from the diverging step
+            ext = subprocess.run([MODELRUN, "extend-drain", base], capture_output=True, text=True).stdout
+            lines += [l for l in ext.splitlines() if l.strip()]
         ext = subprocess.run([MODELRUN, "extend", depth, base], capture_output=True, text=True).stdout
-        lines = [l for l in ext.splitlines() if l.strip()]
+        lines += [l for l in ext.splitlines() if l.strip()][:400000]
         if hists and hists[0].startswith("mpmc;"):
             from check import retag_line
             lines = [retag_line(l) for l in lines]
